@@ -685,7 +685,7 @@ def main():
     c.cov["directed_inputs"] = len(jobs)
     srcs = scenic_sources()
     c.cov["scenic_sources"] = len(srcs)
-    n = int(os.environ.get("VERIF_C10_N", 2600 if quick else 100000))     # VERIF_C10_N: development knob only
+    n = int(os.environ.get("VERIF_C10_N", 2600 if quick else 40000))     # VERIF_C10_N: development knob only
     rng = c.rng
     for i in range(n):
         jobs.append(dict(id=len(jobs), path=rng.choice(srcs), seed=rng.randrange(10 ** 9), extra=rng.choice([0, 0, 0, 1, 2])))
